@@ -231,6 +231,59 @@ func boundaryValues(total int, f fld, orig uint64) []uint64 {
 	return out
 }
 
+// aliasValues: truncation aliases of the VALID value of a field -- the value with one or
+// several of its upper bits set, so that a check made on a narrower view of the field
+// (uint32(x) of a 64-bit location, uint16(x) of a 32-bit size, int32 sign) still sees the valid
+// value while the full-width use does not -- and single-bit flips in the upper bytes.
+// Unlike boundaryValues these are emitted for EVERY recorded field of every seed (not sampled).
+func aliasValues(f fld, orig uint64) []uint64 {
+	m := wmask(f.w)
+	var vs []uint64
+	add := func(v uint64) { vs = append(vs, v&m) }
+	switch {
+	case f.w >= 8:
+		add(orig | 1<<32)
+		add(orig | 1<<63)
+		add(orig | 0xFFFFFFFF00000000)
+		add(orig | 1<<31)
+		add(orig | 1<<40)
+		add(orig | 0xFFFF0000)
+		add(orig ^ 1<<33)
+		add(orig ^ 1<<47)
+		add(orig ^ 1<<56)
+		add(orig ^ 1<<62)
+	case f.w >= 4:
+		add(orig | 1<<31)
+		add(orig | 0xFFFF0000)
+		add(orig | 1<<16)
+		add(orig | 1<<24)
+		add(orig ^ 1<<30)
+		add(orig ^ 1<<23)
+	case f.w == 3:
+		add(orig | 1<<23)
+		add(orig | 0xFF0000)
+		add(orig | 1<<16)
+		add(orig ^ 1<<22)
+	case f.w == 2:
+		add(orig | 1<<15)
+		add(orig | 0xFF00)
+		add(orig | 1<<8)
+		add(orig ^ 1<<14)
+	default:
+		add(orig | 1<<7)
+		add(orig ^ 1<<6)
+	}
+	seen := map[uint64]bool{orig & m: true}
+	var out []uint64
+	for _, v := range vs {
+		if !seen[v] {
+			seen[v] = true
+			out = append(out, v)
+		}
+	}
+	return out
+}
+
 // substitute returns a copy of b with field f set to v
 func substitute(b []byte, f fld, v uint64) []byte {
 	c := append([]byte{}, b...)
